@@ -45,12 +45,17 @@ type MutantResult struct {
 
 // RunProperty loads repo and evaluates one property's rules.
 func RunProperty(repo, tier, prop string, seed int64) (*core.Report, error) {
+	return RunPropertyVariant(repo, "", tier, prop, seed)
+}
+
+// RunPropertyVariant evaluates a property on the repository with the changed files of a scratch copy overlaid.
+func RunPropertyVariant(repo, variant, tier, prop string, seed int64) (*core.Report, error) {
 	fn := Lookup(prop)
 	if fn == nil {
 		return nil, fmt.Errorf("unknown property %s", prop)
 	}
 	rep := core.NewReport(prop, tier, seed)
-	ctx, err := core.Load(repo, tier)
+	ctx, err := core.LoadVariant(repo, variant, tier)
 	if err != nil {
 		return nil, err
 	}
@@ -155,7 +160,7 @@ func RunMutant(repo, verif string, m Mutant, tier string, known map[string]bool)
 			}
 		}
 	}
-	rep, err := RunProperty(dir, tier, m.Property, 0)
+	rep, err := RunPropertyVariant(repo, dir, tier, m.Property, 0)
 	if err != nil {
 		res.Status, res.Detail = "error", "variant does not load: "+err.Error()
 		return res
